@@ -29,7 +29,7 @@ RULE = ("one evaluation = one turn executed on both engines and compared; non-tr
 DIAG = {"cache_hits", "cache_misses", "cache_used", "cache_enabled", "cache_hit", "cache_size", "max_delta", "t1.cache_evictions", "t1.cache_bytes",
         "t2.cache_evictions", "t2.cache_bytes"}
 KINDS = ["repeat", "other-agent", "edge-replace-same-count", "node-label-change", "episode-add", "apply", "kill-switch-turn", "cfg:k_retrieval", "cfg:ranking",
-         "cfg:sim_threshold", "cfg:owner_scope", "cfg:now", "cfg:residual_cap", "cfg:tiers", "cfg:exact_recent_days", "cfg:hybrid", "gel-edge-change",
+         "cfg:sim_threshold", "cfg:owner_scope", "cfg:now", "cfg:now-same-day", "cfg:residual_cap", "cfg:tiers", "cfg:exact_recent_days", "cfg:hybrid", "gel-edge-change",
          "cfg:t1.queue_budget", "cfg:t1.decay", "slice-cap", "switch-state", "node-add", "edge-add"]
 
 
@@ -52,6 +52,16 @@ def gen_history(rng, kind=None):
     if kind in ("cfg:hybrid", "gel-edge-change"):
         base["t2"]["hybrid"] = {"enabled": kind == "gel-edge-change", "lambda_graph": 1.0, "edge_threshold": 0.0, "max_bonus": 10.0}
         base["t2"]["k_retrieval"] = 8
+    if kind == "cfg:now-same-day":
+        # episodes stamped around the edge of a one-day recency window and later the same day: a clock change of a
+        # few hours moves them in/out of the window and changes their recency score
+        import datetime as _dt
+        base_t = _dt.datetime.fromtimestamp(1_700_000_000, tz=_dt.timezone.utc)
+        for i, e in enumerate(world["eps"]):
+            e["ts"] = (base_t - _dt.timedelta(hours=24 - (i % 12) * 0.9)).isoformat().replace("+00:00", "Z")
+            e["owner"] = "A"
+        base["t2"].update({"tiers": ["exact_semantic"], "exact_recent_days": 1, "owner_scope": "any", "k_retrieval": 8,
+                           "ranking": {"alpha_sim": 0.2, "beta_recency": 1.0, "gamma_importance": 0.0}})
     ops = []
     agent = "A"
     for rnd in range(rng.randint(2, 5)):
@@ -159,6 +169,8 @@ def apply_mutation(m, envs, world2, cfgs, slice_holder):
             cfg["t1"]["decay"] = {"mode": "attn_quad", "alpha": 5.0} if cfg["t1"].get("decay", {}).get("mode") != "attn_quad" else {"mode": "exp_floor", "rate": 0.6, "floor": 0.05}
     if kind == "cfg:now":
         slice_holder["now_shift_days"] = 400 if not slice_holder.get("now_shift_days") else 0
+    if kind == "cfg:now-same-day":
+        slice_holder["now_shift_days"] = (slice_holder.get("now_shift_days", 0) + 0.2) % 0.9   # +4.8 h steps inside one UTC day
     if kind == "slice-cap":
         slice_holder["t2_k"] = 0 if slice_holder.get("t2_k") is None else None
 
@@ -220,7 +232,7 @@ def check_history(case, sess: Session):
                     holder["pending"] = op
                     continue
                 turn_no += 1
-                now_ms = NOW_MS + int(holder.get("now_shift_days", 0)) * 86400000
+                now_ms = NOW_MS + int(holder.get("now_shift_days", 0) * 86400000)
                 plan = None
                 pend = holder.pop("pending", None)
                 extra_turn = None
